@@ -797,7 +797,7 @@ fn normalize(root: &[String], segs: &[&str]) -> Option<Vec<String>> {
 
 pub fn c07(ctx: Arc<Ctx>) {
 	ctx.rule(
-		"real `versatiles serve` binary with a folder root and the equivalent tar root, mounted at / and under a URL prefix, tar roots with symbolic/hard link members naming outside files (one archive above 32 MiB), a folder root spelled through a symbolic link followed by '..' (relative and absolute, with and without prefix), a folder root whose name contains '#', and relative roots next to a pipeline-file tile source that lives in another directory; canary files next to the root, above it and at an absolute path; \
+		"real `versatiles serve` binary with a folder root and the equivalent tar root, mounted at / and under a URL prefix, tar roots with symbolic/hard link members naming outside files (one archive above 32 MiB), a folder root spelled through a symbolic link followed by '..' (relative and absolute, with and without prefix), folder roots whose names contain '#' ',' ' ' '=' ';' '[' ']' (next to directories named like the pieces), near-duplicate 20 KiB files requested one after the other behind a tile of the same shape, and relative roots next to a pipeline-file tile source that lives in another directory; canary files next to the root, above it and at an absolute path; \
 		 requests: every sequence of <= 4 segments over {a.txt, d, e.txt, canary.txt, ., .., empty, %2e%2e, %2E., ..%2f, %5c.., <root name>, <sibling name>, secret.txt and backup (which exist outside the root only as .gz/.br)} with and without trailing slash, plus absolute-path smuggling targets; raw request targets (no client-side normalisation). \
 		 oracle: a 200 body (decoded) equals the file inside the root that the path resolves to and never contains a canary; plain paths to existing files are served. non-trivial = request targets containing a dot, empty or encoded segment",
 	);
@@ -880,6 +880,34 @@ pub fn c07(ctx: Arc<Ctx>) {
 		std::path::Component::Normal(s) => Some(s.to_string_lossy().to_string()),
 		_ => None,
 	}).collect();
+	// roots whose names contain characters that option parsers like to give a meaning to (',' ' ' '=' ';' '[' ']'),
+	// each next to directories named like the pieces such a name would fall into
+	let odd_names = ["ww,x", "w w", "a=b", "p;q", "br[ack]et"];
+	for name in odd_names {
+		let r = base.join(name);
+		std::fs::create_dir_all(r.join("d")).unwrap();
+		for (p, c) in &files {
+			std::fs::write(r.join(p), c).unwrap();
+		}
+		for piece in name.split([',', ' ', '=', ';', '[', ']']).filter(|p| !p.is_empty()) {
+			let d = base.join(piece);
+			if std::fs::create_dir_all(d.join("d")).is_ok() {
+				let _ = std::fs::write(d.join("a.txt"), "CANARY-NAME-PIECE-A");
+				let _ = std::fs::write(d.join("canary.txt"), "CANARY-NAME-PIECE");
+				let _ = std::fs::write(d.join("d/e.txt"), "CANARY-NAME-PIECE-E");
+			}
+		}
+	}
+	// three files of 20 KiB that agree in their first and last 6 KiB, inside the root; a tile of the same shape in the tile source
+	let near = |mid: &str| -> Vec<u8> {
+		let mut v: Vec<u8> = (0..20 * 1024).map(|i| b"shared head and tail of near-duplicate files. "[i % 46]).collect();
+		v[10_000..10_000 + mid.len()].copy_from_slice(mid.as_bytes());
+		v
+	};
+	let near_files: Vec<(&str, Vec<u8>)> = vec![("near1.json", near("<<< file one >>>")), ("near2.json", near("<<< file two >>>")), ("d/near3.json", near("<<< file three >>>"))];
+	for (p, c) in &near_files {
+		std::fs::write(root.join(p), c).unwrap();
+	}
 	// a pipeline file as tile source that lives in another directory, which also has a 'www' of its own
 	let maps = base.join("maps");
 	std::fs::create_dir_all(maps.join("www/d")).unwrap();
@@ -891,7 +919,8 @@ pub fn c07(ctx: Arc<Ctx>) {
 	let rt = crate::memsource::runtime(1);
 	let mut tiles = TileMap::new();
 	tiles.insert((0, 0, 0), b"t".to_vec());
-	let mut src = MemSource::new("m", tiles, TileFormat::PNG, TileCompression::Uncompressed);
+	tiles.insert((1, 0, 0), near("CANARY-TILE-CONTENT"));
+	let mut src = MemSource::new("m", tiles, TileFormat::JSON, TileCompression::Uncompressed);
 	let tfile = write_container(&rt, Cont::Versatiles, &base, "t", &mut src).expect("tile file");
 	let abs_canary = base.join("canary.txt").to_string_lossy().to_string();
 	let abs_sibling = sibling.join("canary.txt").to_string_lossy().to_string();
@@ -935,6 +964,13 @@ pub fn c07(ctx: Arc<Ctx>) {
 		("folder spelled through a symbolic link and '..' under a prefix", vec![tabs.clone(), "--static".into(), format!("[/assets]{}/current/../shared", app.to_string_lossy())], "/assets", false, base.clone(), shared_comps.clone()),
 	];
 	let mut mounts = mounts;
+	for name in odd_names {
+		let comps: Vec<String> = base.join(name).canonicalize().unwrap().components().filter_map(|c| match c {
+			std::path::Component::Normal(s) => Some(s.to_string_lossy().to_string()),
+			_ => None,
+		}).collect();
+		mounts.push(("folder whose name contains a character option parsers give a meaning to", vec![tfile.clone(), "--static".into(), name.to_string()], "", false, base.clone(), comps));
+	}
 	mounts.push(("folder whose name contains '#'", vec![tfile.clone(), "--static".into(), "wwx#pre".into()], "", false, base.clone(), hash_comps.clone()));
 	mounts.push(("folder and tar given by relative names, tile source = a pipeline file in another directory", vec!["maps/osm.vpl".into(), "--static".into(), "www".into(), "--static".into(), "[/tarassets]www.tar".into()], "", false, base.clone(), root_comps.clone()));
 	mounts.push(("folder and tar given by relative names, tile source = a pipeline file in another directory", vec![], "/tarassets", true, base.clone(), root_comps.clone()));
@@ -958,6 +994,7 @@ pub fn c07(ctx: Arc<Ctx>) {
 		}
 		let port = server.as_ref().unwrap().port;
 		let (ctxr, sq, sg, fr, rc): (&Ctx, _, _, _, _) = (&ctx, &seqs, &segs, &files, &root_comps);
+		let nfr = &near_files;
 		let chunks = 64usize;
 		let (absc, abss) = (&abs_canary, &abs_sibling);
 		par_for(chunks, |ci| {
@@ -1019,6 +1056,26 @@ pub fn c07(ctx: Arc<Ctx>) {
 			}
 			if ci == 0 {
 				// absolute-path smuggling through empty segments
+				// a tile of the same shape first, then the near-duplicate files one after the other under the same
+				// Accept-Encoding: each answer is the file's own content (what an answer leaves behind in the
+				// server must not leak into the next)
+				if mi == 0 {
+					let mut cl2 = Client::connect(port).expect("connect");
+					for ae in ["gzip", "br", "br, gzip"] {
+						let _ = cl2.request("/tiles/t/1/0/0", &[("Accept-Encoding", ae)]);
+						for (p, c) in nfr.iter() {
+							ctxr.eval();
+							let target = format!("/{p}");
+							if let Ok(Reply::Response(r)) = cl2.request(&target, &[("Accept-Encoding", ae)]) {
+								let body = decode_body(&r).unwrap_or_else(|_| r.body.clone());
+								if r.status != 200 || &body != c {
+									let what = if String::from_utf8_lossy(&body).contains("CANARY") { "static handler returns a file outside the configured root (folder root)" } else { "static handler returns another file of the root than the path names" };
+									ctxr.violation(what, &format!("{mname}: GET {target} (Accept-Encoding: {ae}) after other answers of the same shape: status {}, {} bytes, middle {:?}", r.status, body.len(), String::from_utf8_lossy(&body[body.len().min(10_000)..body.len().min(10_030)])), json!({"mount": mname, "target": target, "accept_encoding": ae}));
+								}
+							}
+						}
+					}
+				}
 				// link members of a tar root name files outside the archive: never served as those files
 				for n in link_names {
 					check(&format!("{prefix}/{n}"), None, false);
